@@ -81,8 +81,8 @@ func run(p *props.Prop, r *rep.Report, tier, repo, verif string, seed int64) (co
 			r.Undec(p.ID+".load", "", "%s: %v", cfg, err)
 			continue
 		}
-		if len(prog.Pkgs) != ana.ExpectedPackages {
-			r.Undec(p.ID+".load.package-count", "", "%s: ./... yields %d packages, expected %d — part of the build is not covered", cfg, len(prog.Pkgs), ana.ExpectedPackages)
+		if len(prog.Pkgs) < ana.ExpectedPackages {
+			r.Undec(p.ID+".load.package-count", "", "%s: ./... yields %d packages, expected at least %d — part of the build is not covered", cfg, len(prog.Pkgs), ana.ExpectedPackages)
 		}
 		loaded = append(loaded, fmt.Sprintf("%s: %d packages (%d incl. dependencies), 0 type errors", cfg, len(prog.Pkgs), len(prog.ByPath)))
 		if len(cfgs) > 1 {
